@@ -412,7 +412,7 @@ def install(world: World):
                 world.log({"e": "lock_rename", "ok": 0})
                 raise FileNotFoundError(errno.ENOENT, "no such file", src)
             fs.locks[dst] = fs.locks.pop(src)
-            world.log({"e": "lock_rename", "ok": 1})
+            world.log({"e": "lock_rename", "ok": 1, "gen": fs.locks[dst]})
 
         @staticmethod
         def unlink(path):
